@@ -232,7 +232,12 @@ def check_abf(run, exe, model, cases, scratch):
     rc, mout, err = V.run_lines(model, lines, timeout=600)
     if rc != 0 or len(mout) != len(cases):
         raise V.InfraError("C14 model driver failed: rc=%s %s" % (rc, err[-500:]))
+    ndead = 0
     for c, (exp, qmap, dmap), mo in zip(cases, pre, mout):
+        if ndead >= 2:
+            # every deadlocked case costs its timeouts: two concrete ones are enough
+            run.dist("abf:skipped-after-deadlocks")
+            continue
         nrest = sum(1 for e in c["events"] if e[0] == "r")
         key = "abf n=%d nd=%d F=%d ev=%d r=%d" % (c["n"], c["nd"], c["freq"], len(c["events"]), nrest)
         run.dist("abf:n=%d" % c["n"])
@@ -241,8 +246,9 @@ def check_abf(run, exe, model, cases, scratch):
         run.sample({"kind": "abf", "n": c["n"], "nd": c["nd"], "nbins": c["nbins"], "freq": c["freq"],
                     "events": c["events"][:12], "more_events": max(0, len(c["events"]) - 12)}, cap=2)
         try:
-            out, stats = scen.run_abf(exe, c, scratch, timeout=15.0)
+            out, stats = scen.run_abf(exe, c, scratch, timeout=10.0)
         except W.WalkerTimeout as e:
+            ndead += 1
             run.violation("abf:exchange-deadlock", "the walkers did not complete the schedule (%s): a walker waits for an "
                           "exchange the others do not perform, or a message is missing; case %s" % (str(e)[:200], key),
                           {"kind": "abf", "case": c})
@@ -250,8 +256,10 @@ def check_abf(run, exe, model, cases, scratch):
         mres = parse_model_abf(mo)
         bad_stats = [s for s in stats if not any("errors=0" in x for x in s)]
         if bad_stats:
+            ndead += 1
             run.violation("abf:communication-error", "replica_comm_send/recv reported errors: %s" % bad_stats[:2],
                           {"kind": "abf", "case": c})
+        tie_ok = True
         for k, ev in enumerate(c["events"]):
             if out[k] is None or exp[k] is None:
                 continue
@@ -275,21 +283,25 @@ def check_abf(run, exe, model, cases, scratch):
                               "sharedFreq %d)" % (what, w, k, ev[:3], impl[d], e[d], c["n"], c["freq"]),
                               {"kind": "abf", "case": c, "event": k, "field": d, "impl": impl, "expected": e})
                 break
-            # tie with the extracted model
+            # tie with the extracted model (after the first disagreement of a case only the oracle goes on)
+            if not tie_ok:
+                continue
             m = mres[qmap[k]] if qmap.get(k) is not None and qmap[k] < len(mres) else None
             if m is None or "cnt" not in m:
                 run.mismatch("abf", {"case": c, "event": k}, impl, m)
-                break
+                tie_ok = False
+                continue
             d = same_abf(impl, m, exact)
             if d is not None:
                 run.mismatch("abf", {"case": c, "event": k, "field": d}, {x: impl[x] for x in ("cnt", "sum", "lcnt", "lsum", "ocnt", "osum", "last_step")}, m)
-                break
+                tie_ok = False
+                continue
             if k in dmap:
                 qi, dw, exch = dmap[k]
                 md = mres[qi].get("due") if qi < len(mres) else None
                 if md is None or (md[dw] == "1") != exch:
                     run.mismatch("abf:share_due", {"case": c, "event": k}, exch, md)
-                    break
+                    tie_ok = False
 
 
 # ==========================================================================================
@@ -503,6 +515,7 @@ def check_meta(run, exe, model, cases, scratch, fixflags="1 1"):
             continue
         reclen = lens.pop() if lens else None
         stop = False
+        tie_ok = True
         for k, ev in enumerate(c["events"]):
             if stop:
                 break
@@ -555,16 +568,18 @@ def check_meta(run, exe, model, cases, scratch, fixflags="1 1"):
                                           {"kind": "meta", "case": c, "event": k, "reader": w, "peer": p})
                             stop = True
                             break
-                # ---- tie with the model
+                # ---- tie with the model (after the first disagreement of a case only the oracles go on)
+                if not tie_ok:
+                    continue
                 if "bad" in mq:
                     run.mismatch("meta", {"case": c, "event": k}, "(no model answer)", mq)
-                    stop = True
-                    break
+                    tie_ok = False
+                    continue
                 mm = mq["mirror"]
                 if (mir is None) != (mm is None):
                     run.mismatch("meta:mirror-exists", {"case": c, "event": k, "reader": w, "peer": p}, mir is not None, mm is not None)
-                    stop = True
-                    break
+                    tie_ok = False
+                    continue
                 if mir is None:
                     continue
                 ipos = int(mir["pos"])
@@ -575,8 +590,7 @@ def check_meta(run, exe, model, cases, scratch, fixflags="1 1"):
                     isum["pos_bytes"] = ipos
                     isum["reclen"] = reclen
                     run.mismatch("meta", {"case": c, "event": k, "reader": w, "peer": p}, isum, dict(msum, trace_ok=mq["ok"]))
-                    stop = True
-                    break
+                    tie_ok = False
 
 
 # ==========================================================================================
@@ -622,13 +636,25 @@ def gen_view(r, cid, robust=False):
             events.append(["rr"])
             events.append(["rs", rlast])
         elif robust:
+            # the list file and the registry are rewritten / appended in place: a reader may find them half-written
             y = r.random()
             if y < 0.4:
-                events.append(["pl", r.choice([None, 0, 5, 9, 10, 30, 60])])
+                events.append(["pl", r.choice([None, None, 0, 5, 9, 10, 30, 60, 70])])
             else:
-                events.append(["pt", r.choice([None, 0, 10, 40, 80, 200, 400, 700])])
-    return {"kind": "view", "id": cid, "n": 2, "nbins": NB, "hillfreq": hillfreq, "upfreq": upfreq,
-            "restartfreq": restartfreq, "robust": robust, "events": events}
+                events.append(["pg", r.choice([None, None, 1, 2, 3, 4, 10, 20, 30])])
+    c = {"kind": "view", "id": cid, "n": 2, "nbins": NB, "hillfreq": hillfreq, "upfreq": upfreq,
+         "restartfreq": restartfreq, "robust": robust, "events": events}
+    if robust:
+        c["late_register"] = r.random() < 0.7
+        events.append(["pg", None])
+        events.append(["pl", None])
+        for _ in range(3):
+            events.append(["ps", pb])
+            pb = 30 + (pb - 30 + 1) % 30
+            events.append(["ph", None])
+            events.append(["rs", rb])
+            rb = 2 + (rb - 2 + 1) % 26
+    return c
 
 
 def check_view(run, exe, model, cases, scratch, fixflags="1 1"):
@@ -696,6 +722,7 @@ def check_view(run, exe, model, cases, scratch, fixflags="1 1"):
             mres = parse_model_meta(mout[0])
         if not reclen:
             run.dist("view:no-complete-record")
+        tie_ok = True
         for k, rec in enumerate(out):
             d = rec.get("r")
             if d is None:
@@ -705,6 +732,13 @@ def check_view(run, exe, model, cases, scratch, fixflags="1 1"):
                 break
             if d["err"] not in (None, "ok"):
                 run.dist("view:reader-raised-%s-error" % d["err"])
+                if not c["robust"] and rec["ev"][0] == "rs":
+                    # nothing is wrong in this stream except that the peer's hills file ends at an arbitrary byte
+                    run.violation("view:partial-record-raises-error", "the reader's step in event %d raised an %s error (fatal in the MD engines) "
+                                  "while all that is special is that it sees the first %d bytes of its peer's hills file (records of %s bytes): %s"
+                                  % (k, d["err"], rec["view_hills_bytes"], reclen, d["errtext"].strip()[:160]),
+                                  {"kind": "view", "case": c, "event": k})
+                    break
             own, okint = scen.content(d["own"], d["owngrid"], NB)
             if not okint:
                 run.dist("view:boundary-ambiguous")
@@ -717,6 +751,10 @@ def check_view(run, exe, model, cases, scratch, fixflags="1 1"):
             mir = d["mirrors"].get("w1")
             Dp = Dp_at[k]
             cont = None
+            if mir is None and shared_at.get(k) and rec.get("files_ok", True) and rec["p_state_step"] is not None and c["robust"]:
+                run.violation("view:peer-ignored", "after its exchange in event %d the reader has no mirror of its peer although the registry, the list file "
+                              "and the state file are complete" % k, {"kind": "view", "case": c, "event": k})
+                break
             if mir is not None:
                 cont, okint = scen.content(mir, mir.get("grid"), NB)
                 if not okint:
@@ -729,7 +767,7 @@ def check_view(run, exe, model, cases, scratch, fixflags="1 1"):
                                   "the first %d bytes of the peer's hills file (records of %s bytes)" % (k, rec["ev"], show(cont), [b for (_, b) in Dp],
                                   rec["view_hills_bytes"], reclen), {"kind": "view", "case": c, "event": k})
                     break
-                if shared_at.get(k) and reclen and not c["robust"] and rec["p_state_step"] is not None:
+                if shared_at.get(k) and reclen and rec.get("files_ok", True) and rec["p_state_step"] is not None:
                     S = rec["p_state_step"]
                     n_state = sum(1 for (it, _) in Dp if it <= S)
                     n_file = (rec["view_hills_bytes"] + 1) // reclen
@@ -738,15 +776,17 @@ def check_view(run, exe, model, cases, scratch, fixflags="1 1"):
                                       "state file (step %d, %d hills) and %d complete records (%d bytes) were visible" %
                                       (k, kpre, show(cont), S, n_state, n_file, rec["view_hills_bytes"]), {"kind": "view", "case": c, "event": k})
                         break
-            if mres is not None:
+            if mres is not None and tie_ok:
                 mq = mres[qat[k]] if qat.get(k) is not None and qat[k] < len(mres) else {"bad": 1}
                 if "bad" in mq:
                     run.mismatch("view", {"case": c, "event": k}, "(no model answer)", mq)
-                    break
+                    tie_ok = False
+                    continue
                 mm = mq["mirror"]
                 if (mir is None) != (mm is None):
                     run.mismatch("view:mirror-exists", {"case": c, "event": k}, mir is not None, mm is not None)
-                    break
+                    tie_ok = False
+                    continue
                 if mir is None:
                     continue
                 ipos = int(mir["pos"])
@@ -754,8 +794,9 @@ def check_view(run, exe, model, cases, scratch, fixflags="1 1"):
                 isum = {"sync": int(mir["in_sync"]), "S": int(mir["state_step"]), "pos": irec, "cont": show(cont)}
                 msum = {"sync": mm["sync"], "S": mm["S"], "pos": mm["pos"], "cont": show(counts_of(mm["cont"], NB))}
                 if isum != msum or not mq["ok"]:
+                    isum["pos_bytes"] = ipos
                     run.mismatch("view", {"case": c, "event": k, "bytes": rec["view_hills_bytes"]}, isum, dict(msum, trace_ok=mq["ok"]))
-                    break
+                    tie_ok = False
 
 
 # ==========================================================================================
@@ -789,7 +830,7 @@ def check(run):
                        "2-4 real walker processes and on the extracted model; distinct = distinct event list + frequencies")
     try:
         run_cases(run, exe, model, load_corpus(), scratch)
-        na, nm, nv, nr = (14, 12, 10, 5) if quick else (300, 250, 200, 80)
+        na, nm, nv, nr = (60, 45, 30, 12) if quick else (1500, 1200, 800, 300)
         cases = [gen_abf(r, "a%d" % i) for i in range(na)]
         cases += [gen_meta(r, "m%d" % i) for i in range(nm)]
         cases += [gen_view(r, "v%d" % i) for i in range(nv)]
